@@ -236,6 +236,13 @@ func (r *Run) Finish(verifDir string, kf *KnownFindings, seed int) int {
 		"trusted_base":       r.Trusted,
 		"exhaustive":         false,
 	}
+	if r.Assume == nil {
+		r.Assume = []string{}
+	}
+	if r.Info == nil {
+		r.Info = []string{}
+	}
+	cov["info"] = r.Info
 	ev := map[string]interface{}{
 		"property_id": r.Property,
 		"tier":        r.Tier,
